@@ -433,7 +433,8 @@ def extended_search(ctx):
 def _replay_oracle(ctx, case, res, real):
     oracle(ctx, case, res, real)
     stepwise_oracle(ctx, dict(case, stepwise=True), real)
-    cuts_in_order_oracle(ctx, case, real)
+    tmpl = case["argv"][case["argv"].index("--rename") + 1] if "--rename" in case["argv"] else ""
+    cuts_in_order_oracle(ctx, dict(case, cut_order=tmpl in ("{id} {cut_prefix}|{cut_suffix}", "{id} {r1.cut_prefix}|{r1.cut_suffix}|{r2.cut_prefix}|{r2.cut_suffix}")), real)
 
 
 replay = pipeprop.generic_replay("C10", _replay_oracle)
